@@ -3,7 +3,7 @@
 // Contracts for the verification harness in /verif (comment-only; no declarations).
 package common
 
-//@ global-nonnil lastUpdatedCache cacheLock
+//@ global-nonnil lastUpdatedCache cacheLock KeyFunc
 //@ global-invariant [C13] forall k string :: has(lastUpdatedCache, k) ==> lastUpdatedCache[k] != nil
 
 //@ func deleteChildren(client, parent, observed, desired) (err)
